@@ -4,8 +4,10 @@ For each pydantic model reachable from `KSKMConfig` this emits an `ObjSchema` (l
 field names in definition order, `additionalProperties` (extra="forbid"), `strict`, required fields, the
 loaded defaults (by instantiating the model / the field's default factory), numeric bounds, string
 patterns, the free-form `env` map, int-keyed mappings (from the annotations: the JSON schema does not say),
-and the `mode="before"` field validators (by name: a validator this translator does not know makes the
-section fail, so a new validator can never be silently ignored).
+and the field validators: the `mode="before"` ones by name, the `mode="after"` ones by name AND by
+execution (the function is probed, see `KNOWN_AFTER_VALIDATORS`: the name alone is not trusted).  A validator
+this translator does not know, or one that does not behave as modelled, makes the section fail, so a new or
+changed validator can never be silently ignored.
 
 Also tabulated BY EXECUTION: the exit status of the real `kskm.tools.ksrsigner.main()` (a subprocess)
 for a configuration raising ConfigurationError, a schema-invalid configuration, a missing file and
@@ -21,6 +23,7 @@ import os
 import shutil
 import subprocess
 import sys
+import time
 import typing
 from collections.abc import Mapping
 from pathlib import Path
@@ -30,6 +33,70 @@ import lib  # noqa: F401
 from lib import REPO, VERIF, dt_us, td_us
 
 KNOWN_BEFORE_VALIDATORS = {"turn_into_list", "algorithm_by_name"}
+
+
+def probe_naive_is_utc(fn: Any) -> str | None:
+    """Is `fn` (a `mode="after"` field validator, called on the already validated value) exactly
+    "a naive datetime becomes the same wall-clock time with UTC offset 0; an aware datetime and None are
+    returned unchanged"?  Decided by EXECUTION on probe values; returns None when it is, else what differed."""
+    utc = _dt.timezone.utc
+    walls = [
+        _dt.datetime(2010, 7, 15), _dt.datetime(2010, 7, 15, 12, 30, 1, 5), _dt.datetime(1970, 1, 1), _dt.datetime(1969, 12, 31, 23, 59, 59, 999999),
+        _dt.datetime(1, 1, 1), _dt.datetime(9999, 12, 31, 23, 59, 59, 999999), _dt.datetime(2012, 2, 29, 23, 59, 59), _dt.datetime(2024, 3, 31, 2, 30),
+        _dt.datetime(2024, 10, 27, 2, 30, fold=1), _dt.datetime(2038, 1, 19, 3, 14, 8),
+    ]  # fmt: skip
+    zones = [utc, _dt.timezone(_dt.timedelta(0), "X"), _dt.timezone(_dt.timedelta(hours=2)), _dt.timezone(_dt.timedelta(hours=-11, minutes=-30)),
+             _dt.timezone(_dt.timedelta(hours=14)), _dt.timezone(_dt.timedelta(seconds=1))]  # fmt: skip
+    try:
+        import zoneinfo
+
+        zones.append(zoneinfo.ZoneInfo("Europe/Stockholm"))
+    except Exception:  # noqa: BLE001
+        pass
+    # the answer must not depend on the time zone of the process
+    saved = os.environ.get("TZ")
+    try:
+        for tzname in (None, "UTC", "Asia/Tokyo", "America/Los_Angeles"):
+            if tzname is not None:
+                os.environ["TZ"] = tzname
+                time.tzset()
+            try:
+                if fn(None) is not None:
+                    return "None is not returned unchanged"
+                for w in walls:
+                    got = fn(w)
+                    if type(got) is not _dt.datetime:
+                        return f"naive {w!r}: returns a {type(got).__name__}"
+                    if got.utcoffset() != _dt.timedelta(0):
+                        return f"naive {w!r}: result has UTC offset {got.utcoffset()!r}"
+                    if got.replace(tzinfo=None) != w or got.fold != w.fold:
+                        return f"naive {w!r}: wall-clock fields changed to {got!r}"
+                    for z in zones:
+                        if w.year in (1, 9999):
+                            continue  # utcoffset() of the edge years may overflow for some zones
+                        a = w.replace(tzinfo=z)
+                        got = fn(a)
+                        if got is a:
+                            continue
+                        if type(got) is not _dt.datetime or got.tzinfo is None or got.replace(tzinfo=None) != w or got.utcoffset() != a.utcoffset() or got.fold != a.fold:
+                            return f"aware {a!r}: not returned unchanged ({got!r})"
+            except Exception as exc:  # noqa: BLE001
+                return f"raises {type(exc).__name__}: {exc}"
+    finally:
+        if saved is None:
+            os.environ.pop("TZ", None)
+        else:
+            os.environ["TZ"] = saved
+        time.tzset()
+    return None
+
+
+# `mode="after"` field validators the model has built in: name -> (the per-field flag of the generated table,
+# the behaviour probe the function must pass, the field types it may be declared for)
+KNOWN_AFTER_VALIDATORS: dict[str, tuple[str, Any, set[str]]] = {
+    "validity_without_timezone_is_utc": ("naiveIsUtc", probe_naive_is_utc, {"STy.scalar [Scalar.datetime]", "STy.scalar [Scalar.datetime, Scalar.null]"}),
+}
+AFTER_FLAGS = sorted({flag for flag, _, _ in KNOWN_AFTER_VALIDATORS.values()})
 
 # the four probe configurations of `exitStatusObserved`
 EXIT_PROBES: list[tuple[str, str | None]] = [
@@ -277,13 +344,26 @@ class SchemaWalker:
         strict = bool(m.model_config.get("strict", False))
         required = set(js.get("required", []))
         before_by_field: dict[str, set[str]] = {}
+        after_by_field: dict[str, set[str]] = {}
         for vname, dec in m.__pydantic_decorators__.field_validators.items():
-            if dec.info.mode != "before" or vname not in KNOWN_BEFORE_VALIDATORS:
+            if dec.info.mode == "before" and vname in KNOWN_BEFORE_VALIDATORS:
+                by_field = before_by_field
+            elif dec.info.mode == "after" and vname in KNOWN_AFTER_VALIDATORS:
+                # the name is not trusted: the function itself must behave exactly as the model's flag says
+                why = KNOWN_AFTER_VALIDATORS[vname][1](getattr(m, dec.cls_var_name))
+                if why is not None:
+                    raise ValueError(f"{name}: field validator {vname} (mode after) is not modelled: it does not behave as its name says: {why}")
+                by_field = after_by_field
+            else:
                 raise ValueError(f"{name}: field validator {vname} (mode {dec.info.mode}) is not modelled")
             for fld in dec.info.fields:
                 targets = list(m.model_fields) if fld == "*" else [fld]
                 for t in targets:
-                    before_by_field.setdefault(t, set()).add(vname)
+                    if t not in m.model_fields:
+                        raise ValueError(f"{name}: field validator {vname} names an unknown field {t}")
+                    by_field.setdefault(t, set()).add(vname)
+        if m.model_config.get("validate_default") and after_by_field:
+            raise ValueError(f"{name}: validate_default with after-validators is not modelled")
         for kind in ("validators", "root_validators", "model_validators"):
             if getattr(m.__pydantic_decorators__, kind, None):
                 raise ValueError(f"{name}: {kind} are not modelled")
@@ -293,6 +373,14 @@ class SchemaWalker:
         for fname, finfo in m.model_fields.items():
             before = before_by_field.get(fname, set())
             ty = self.sty(js["properties"][fname], name, fname, before, self.mapping_key_types(finfo.annotation))
+            after_flags: set[str] = set()
+            for vname in after_by_field.get(fname, set()):
+                flag, _, types = KNOWN_AFTER_VALIDATORS[vname]
+                if ty not in types:
+                    raise ValueError(f"{name}.{fname}: after-validator {vname} on a field of type {ty} is not modelled")
+                if finfo.validate_default:
+                    raise ValueError(f"{name}.{fname}: validate_default with after-validator {vname} is not modelled")
+                after_flags.add(flag)
             req = fname in required
             if req != finfo.is_required():
                 raise ValueError(f"{name}.{fname}: required mismatch")
@@ -304,8 +392,9 @@ class SchemaWalker:
                     raise ValueError(f"{name}.{fname}: no default")
                 default = f"some ({lean_cval(canon(d))})"
             fields.append(
-                "    { name := %s, ty := %s, required := %s, default := %s, strToList := %s }"
-                % (lstr(fname), ty, "true" if req else "false", default, "true" if "turn_into_list" in before else "false")
+                "    { name := %s, ty := %s, required := %s, default := %s, strToList := %s%s }"
+                % (lstr(fname), ty, "true" if req else "false", default, "true" if "turn_into_list" in before else "false",
+                   "".join(", %s := %s" % (flag, "true" if flag in after_flags else "false") for flag in AFTER_FLAGS))
             )
         return "  { name := %s, additionalProperties := %s, strict := %s, fields := [\n%s] }" % (
             lstr(name),
@@ -406,11 +495,14 @@ def section() -> list[str]:
     out.append(",\n".join(w.obj_schema(n) for n in names))
     out.append("]")
     out.append("/-- declared `mode=\"before\"` field validators: (model, validator, fields) -/")
-    rows = []
+    rows: dict[str, list[str]] = {"before": [], "after": []}
     for n in names:
         for vname, dec in w.models[n].__pydantic_decorators__.field_validators.items():
-            rows.append(f"({lstr(n)}, {lstr(vname)}, [{', '.join(lstr(f) for f in dec.info.fields)}])")
-    out.append("def configBeforeValidators : List (String × String × List String) := [" + ", ".join(rows) + "]")
+            rows[dec.info.mode].append(f"({lstr(n)}, {lstr(vname)}, [{', '.join(lstr(f) for f in dec.info.fields)}])")
+    out.append("def configBeforeValidators : List (String × String × List String) := [" + ", ".join(rows["before"]) + "]")
+    out.append("/-- declared `mode=\"after\"` field validators: (model, validator, fields); each one was PROBED by execution")
+    out.append("    (tables_config.KNOWN_AFTER_VALIDATORS) before its per-field flag was written into `configSchema` -/")
+    out.append("def configAfterValidators : List (String × String × List String) := [" + ", ".join(rows["after"]) + "]")
     out.append("/-- which rule function reads which boolean option of RequestPolicy (by `ast`) -/")
     out.append("def flagReaders : List (String × List String) := [")
     out.append(",\n".join(f"  ({lstr(f)}, [{', '.join(lstr(x) for x in fs)}])" for f, fs in flag_readers()))
